@@ -115,6 +115,22 @@ STRIPS = {'both': ('strip', 'StripBoth'), 'space': ('strip -trailing-space', 'St
           'nl': ('strip -trailing-new-lines', 'StripTrailingNewLines')}
 
 
+BLANK_TEXTS = ['\n', '\n\n', '\n\n\n', ' ', ' \n', '\n ', ' \n\n', '  \n \n', '\n \n\n', 'a\n\n', 'a\n \n\n', '\n\na', ' a \n\n ']
+
+
+def gen_strip_trans(rng):
+    """a transformer in which a strip variant meets the text directly or after neutral / other operands"""
+    st = ('strip', rng.choice(sorted(STRIPS)))
+    r = rng.below(6)
+    if r < 3:
+        return ('atom', st)
+    if r < 4:
+        return ('seq', [('id',), st])
+    if r < 5:
+        return ('seq', [st, gen_atom(rng)])
+    return ('chain', ('s', [('s', [('a', ('id', rng.chance(0.5))), ('a', st)]), gen_leaf(rng)]))
+
+
 def gen_atom(rng):
     return rng.weighted([(('id',), 3), (('upper',), 2), (('filter', gen_pred(rng)), 5),
                          (('run', rng.choice(sorted(RUNS))), 2),
@@ -503,7 +519,7 @@ class World:
 def do_access(x, a):
     try:
         return _do_access(x, a)
-    except UnicodeDecodeError as ex:  # a view that raises is an observation, not a harness error
+    except Exception as ex:  # a view that raises (whatever it raises) is an observation, not a harness error
         return ('exc', type(ex).__name__)
 
 
@@ -693,7 +709,7 @@ def apply_matcher(world, env, matcher_syntax, source_syntax):
     x = world.build_source(source_syntax, env)
     try:
         return bool(m.matches_w_trace(x).value)
-    except UnicodeDecodeError:
+    except Exception:  # a matcher that raises is an observation (no verdict), not a harness error
         return None
 
 
@@ -888,7 +904,12 @@ def run(ctx, res):
                 accs = gen_accesses(rng)
                 here = rng.chance(0.5)
                 r = rng.below(100)
-                if r < 15:  # concat of 2-4 parts of any kinds, built through concat.string_source
+                if r >= 97:  # texts of only new-lines / blank lines / spaces through the strip variants, lines before and after freeze
+                    text, trans, exotic = rng.choice(BLANK_TEXTS), gen_strip_trans(rng), False
+                    buff = rng.choice([1, 2, 8192])
+                    accs = [rng.choice(['lines', 'str', 'file', 'write']) for _ in range(rng.randint(0, 2))] + ['lines', 'freeze'] + \
+                           [rng.choice(['lines', 'str', 'file']) for _ in range(rng.randint(0, 1))] + ['lines']
+                elif r < 15:  # concat of 2-4 parts of any kinds, built through concat.string_source
                     parts = tuple(gen_part(rng, exotic) for _ in range(rng.randint(2, 4)))
                     kind, text, trans = 'concat', parts, None
                     buff = gen_buff(rng, whole_text(kind, text))
@@ -966,6 +987,11 @@ def run(ctx, res):
                     kind, text = 'progsym', (px, gen_tree(rng, 1, top=rng.chance(0.7)))
                     buff = gen_buff(rng, whole_text(kind, text))
                     m = gen_matcher(rng, rng.randint(0, 2), whole_text(kind, text), exotic)
+                elif rng.chance(0.05):  # line count / emptiness of blank texts through the strip variants, by every route
+                    kind, text, trans, exotic = rng.choice(BASE_KINDS), rng.choice(BLANK_TEXTS), gen_strip_trans(rng), False
+                    buff = rng.choice([1, 2, 8192])
+                    m = rng.choice([('numlines', 0, rng.randint(0, 2)), ('empty',), ('conj', ('neg', ('empty',)), ('numlines', 4, 0)),
+                                    ('equals', rng.choice(BASE_KINDS), rng.choice(['', '\n', 'a']), None)])
                 elif rng.chance(0.12):
                     kind, text = gen_progx(rng, exotic, allow_nd=False)
                     buff = gen_buff(rng, whole_text(kind, text))
